@@ -84,6 +84,106 @@ pub fn walk(ctx: &mut Ctx, g: &Guarded, h: &Multiboot2Header) {
     }
 }
 
+/// `typ= flags= size=` of a typed header tag, read as raw bytes; enum-typed
+/// fields are printed `VAL n` when the stored value is a declared discriminant
+/// and `UB` otherwise (the field is then NOT read through its Rust type).
+fn common(p: *const u8) -> String {
+    let e = |v: u32, hi: u32| if v <= hi { format!("VAL {}", v) } else { "UB".to_string() };
+    format!("typ={} flags={} size={}", e(raw16(p, 0) as u32, 10), e(raw16(p, 2) as u32, 1), raw32(p, 4))
+}
+
+fn get_line<T: ?Sized>(ctx: &mut Ctx, g: &Guarded, name: &str, r: Result<Option<&T>, ()>) -> Option<*const u8> {
+    match r {
+        Err(()) => {
+            ctx.ln("get", format!("{} PANIC", name));
+            None
+        }
+        Ok(None) => {
+            ctx.ln("get", format!("{} none", name));
+            None
+        }
+        Ok(Some(t)) => {
+            ctx.ln("get", format!("{} some {}", name, view(g, t)));
+            Some(t as *const T as *const u8)
+        }
+    }
+}
+
+pub fn dump_getters(ctx: &mut Ctx, g: &Guarded, h: &Multiboot2Header) {
+    let en = |v: u32, hi: u32| if v <= hi { format!("VAL {}", v) } else { "UB".to_string() };
+    if let Some(p) = get_line(ctx, g, "information_request", guard(|| h.information_request_tag())) {
+        let t = h.information_request_tag().unwrap();
+        let reqs = t.requests();
+        let list: Vec<String> = reqs.iter().map(|r| format!("{}", u32::from(*r))).collect();
+        ctx.ln(
+            "information_request_tag",
+            format!(
+                "{} requests=@{}+{} [{}]",
+                common(p),
+                g.off(reqs.as_ptr()),
+                core::mem::size_of_val(reqs),
+                list.join(",")
+            ),
+        );
+    }
+    if let Some(p) = get_line(ctx, g, "address", guard(|| h.address_tag())) {
+        let t = h.address_tag().unwrap();
+        ctx.ln(
+            "address_tag",
+            format!(
+                "{} header_addr={} load_addr={} load_end_addr={} bss_end_addr={}",
+                common(p),
+                t.header_addr(),
+                t.load_addr(),
+                t.load_end_addr(),
+                t.bss_end_addr()
+            ),
+        );
+    }
+    if let Some(p) = get_line(ctx, g, "entry_address", guard(|| h.entry_address_tag())) {
+        let t = h.entry_address_tag().unwrap();
+        ctx.ln("entry_address_tag", format!("{} entry_addr={}", common(p), t.entry_addr()));
+    }
+    if let Some(p) = get_line(ctx, g, "entry_address_efi32", guard(|| h.entry_address_efi32_tag())) {
+        let t = h.entry_address_efi32_tag().unwrap();
+        ctx.ln("entry_address_efi32_tag", format!("{} entry_addr={}", common(p), t.entry_addr()));
+    }
+    if let Some(p) = get_line(ctx, g, "entry_address_efi64", guard(|| h.entry_address_efi64_tag())) {
+        let t = h.entry_address_efi64_tag().unwrap();
+        ctx.ln("entry_address_efi64_tag", format!("{} entry_addr={}", common(p), t.entry_addr()));
+    }
+    if let Some(p) = get_line(ctx, g, "console_flags", guard(|| h.console_flags_tag())) {
+        ctx.ln("console_flags_tag", format!("{} console_flags={}", common(p), en(raw32(p, 8), 1)));
+    }
+    if let Some(p) = get_line(ctx, g, "framebuffer", guard(|| h.framebuffer_tag())) {
+        let t = h.framebuffer_tag().unwrap();
+        ctx.ln(
+            "framebuffer_tag",
+            format!("{} width={} height={} depth={}", common(p), t.width(), t.height(), t.depth()),
+        );
+    }
+    if let Some(p) = get_line(ctx, g, "module_align", guard(|| h.module_align_tag())) {
+        ctx.ln("module_align_tag", common(p));
+    }
+    if let Some(p) = get_line(ctx, g, "efi_boot_services", guard(|| h.efi_boot_services_tag())) {
+        ctx.ln("efi_boot_services_tag", common(p));
+    }
+    if let Some(p) = get_line(ctx, g, "relocatable", guard(|| h.relocatable_tag())) {
+        let t = h.relocatable_tag().unwrap();
+        ctx.ln(
+            "relocatable_tag",
+            format!(
+                "{} min_addr={} max_addr={} align={} preference={}",
+                common(p),
+                t.min_addr(),
+                t.max_addr(),
+                t.align(),
+                en(raw32(p, 20), 2)
+            ),
+        );
+    }
+}
+
 pub fn run(ctx: &mut Ctx, dom: &str, a: &[Arg]) {
     match dom {
         "hdrnull" => {
@@ -101,6 +201,13 @@ pub fn run(ctx: &mut Ctx, dom: &str, a: &[Arg]) {
             let g = Guarded::new(a[0].b(), 0, ctx.place_end);
             if let Some(h) = load(ctx, &g) {
                 walk(ctx, &g, &h);
+            }
+        }
+        "hdr" => {
+            let g = Guarded::new(a[0].b(), 0, ctx.place_end);
+            if let Some(h) = load(ctx, &g) {
+                walk(ctx, &g, &h);
+                dump_getters(ctx, &g, &h);
             }
         }
         "find" => {
